@@ -103,6 +103,13 @@ pub fn run(tier: Tier) -> i32 {
             }
             let voiced: Vec<bool> = t.1.iter().map(|f| f[0] != NODATA).collect();
             rep.outcome(fnv(format!("{:?}", voiced).as_bytes()));
+            // streams that are not multi-space have no voicing weight: whatever their own threshold is set to,
+            // every frame carries data
+            rep.cmp(1);
+            if t.0.iter().flatten().any(|x| *x == NODATA) || t.2.iter().flatten().any(|x| *x == NODATA) {
+                rep.violation("non-msd-masked", format!("a frame of a stream without multi-space distribution (spectrum or low-pass) carries the no-data marker under {:?}", other), rp.clone());
+                return;
+            }
             for (fi, vflag) in voiced.iter().enumerate() {
                 rep.cmp(1);
                 let want = msd[frame_state[fi]] > th;
